@@ -142,6 +142,7 @@ type World struct {
 	Strict  bool // translation results must equal the harness table exactly (no auto allocation)
 	allocd  map[[2]uint64]vm.Page
 	MMUReset bool
+	OnResponse func(rspTo uint64)
 }
 
 func (w *World) fail(oracle, sig, f string, a ...any) {
@@ -237,7 +238,7 @@ func (w *World) checkPage(who string, pid vm.PID, vaddr uint64, got vm.Page) {
 	want, ok := w.table[key]
 	if !ok {
 		if w.C.AutoAlloc {
-			if prev, seen := w.allocd[key]; seen && prev.PAddr != got.PAddr && !w.MMUReset {
+			if prev, seen := w.allocd[key]; seen && prev.PAddr != got.PAddr {
 				w.fail("auto-allocation", "C27:two-mappings-for-one-page",
 					"(pid %d, vpage %#x) was translated to %#x and later to %#x", pid, key[1], prev.PAddr, got.PAddr)
 			}
